@@ -120,6 +120,18 @@ def h_interactions(ctx):
     run_cell(ctx, shape, metric, x, "csv", extra)
 
 
+def h_fieldsets(ctx):
+    """files that hold only some of the field families (deterministic only; deterministic + ensemble): metrics whose fields are not
+    there must stop with a message, the others must work"""
+    p = ctx.params
+    shape = ctx.choose("shape", ["deterministic", "ensemble_only"], free=True)
+    metric = ctx.choose("metric", p["metrics"], free=True)
+    x = ctx.choose("x", [None, "threshold"] + (["location", "no"] if p.get("fs_more") else []), free=True)
+    typ = ctx.choose("type", ["csv", "text"] + (["plot"] if p.get("fs_more") else []), free=True)
+    variant = ctx.choose("variant", [(), ("-r", "2"), ("-q", "0.5")], free=True)
+    run_cell(ctx, shape, metric, x, typ, variant)
+
+
 def h_edgetypes(ctx):
     """the non-default output types with thresholds outside the data range (all-NaN scores)"""
     p = ctx.params
@@ -142,13 +154,13 @@ def params_for(tier):
         return {"metrics": metrics, "shapes": ["regular"], "types": ["csv", "text", "plot"],
                 "vx": [None, "threshold"], "vtypes": ["csv"], "variants": variants,
                 "ishapes": ["missing_slice", "regular"], "ix": [None, "location"], "iaggs": [None, "min", "range", "0.5"], "irs": irs,
-                "etypes": et, "evariants": ev, "eshapes": ["regular", "one_input", "three_inputs"]}
+                "etypes": et, "evariants": ev, "eshapes": ["regular", "one_input", "three_inputs"], "fs_more": False}
     return {"metrics": metrics, "shapes": ["regular", "single_time", "single_location", "missing_slice"],
             "types": TYPES_ALL, "vx": [None, "threshold", "no", "location"], "vtypes": ["csv", "plot"],
             "variants": variants,
             "ishapes": ["missing_slice", "regular", "single_time", "single_location"], "ix": [None, "location", "time", "no"],
             "iaggs": [None] + AGGS, "irs": irs + [("-r", "50")],
-            "etypes": et + ["plot"], "evariants": ev, "eshapes": ["regular", "missing_slice", "single_location", "one_input", "three_inputs"]}
+            "etypes": et + ["plot"], "evariants": ev, "eshapes": ["regular", "missing_slice", "single_location", "one_input", "three_inputs"], "fs_more": True}
 
 
 def run(tier, only=None):
@@ -183,12 +195,19 @@ def run(tier, only=None):
             "edgetypes", st, bound="full product %d metrics x %d output types x %d threshold variants x %d shapes"
             % (len(p["metrics"]), len(p["etypes"]), len(p["evariants"]), len(p["eshapes"])),
             rule="as grid; thresholds outside the data range make every score NaN", wall=time.time() - t0))
+    if only in (None, "fieldsets"):
+        t0 = time.time()
+        st = explore.explore(h_fieldsets, mode="full", params=p, repo_root=core.REPO)
+        subs.append(core.Sub.from_e1(
+            "fieldsets", st, bound="full product 2 partial field sets (deterministic; deterministic + ensemble) x %d metrics x %d -x x %d types x 3 threshold variants"
+            % (len(p["metrics"]), 4 if p.get("fs_more") else 2, 3 if p.get("fs_more") else 2),
+            rule="as grid; files without probabilistic / quantile columns", wall=time.time() - t0))
     return subs
 
 
 def replay(rec):
     p = params_for(rec.get("tier", "quick"))
-    h = {"grid": h_grid, "variants": h_variants, "interactions": h_interactions, "edgetypes": h_edgetypes}[rec["subcheck"]]
+    h = {"fieldsets": h_fieldsets, "grid": h_grid, "variants": h_variants, "interactions": h_interactions, "edgetypes": h_edgetypes}[rec["subcheck"]]
     ctx, _ = explore.replay(h, rec["choices"], rec.get("labels"), params=p, repo_root=core.REPO)
     want = rec["signature"][1]
     return [v.locus for v in ctx.violations if v.locus == want]
